@@ -601,6 +601,27 @@ func c12ArrayAccessorsAt(pj *simdjson.ParsedJson, base vpath, d *ref.Node) (what
 			return fmt.Sprintf("Interface() of %s = %v", lit, iv), "Interface/value"
 		}
 	}
+	// one and the same Array value through every accessor in turn: what the later calls
+	// return on a consumed array is unspecified, but none may panic
+	func() {
+		defer func() {
+			if r := recover(); r != nil {
+				what, fp = fmt.Sprintf("PANIC when the accessors are called one after the other on the same Array value: %v", r), "accessor-sequence"
+			}
+		}()
+		a := getArr()
+		a.AsFloat()
+		a.AsString()
+		a.AsInteger()
+		a.AsStringCvt()
+		a.AsUint64()
+		a.Interface()
+		a.MarshalJSON()
+		a.AsStringCvt()
+	}()
+	if what != "" {
+		return what, fp
+	}
 	// bulk accessors == element-wise model
 	allNum := true
 	for _, e := range d.Elems {
